@@ -443,3 +443,38 @@ def cx_ident_pair(cx, a):
     ind = a["individual"]
     root = Tree_get_root.RootOf(ind.ident)
     return hp(root, hp(ind.ident, z3.IntVal(-1)))
+
+
+@register
+class DistanceAwareFitness_copy(Contract):
+    """__copy__ of the comparison fitness keeps verdict, values and counters (the memo hit path of
+    ComparisonConstraint.fitness returns copy(self.cache[...]))"""
+    target = "constraints/fitness.py:DistanceAwareConstraintFitness.__copy__"
+    properties = ("C02", "C07", "C11")
+    float_mode = "real"
+
+    def inputs(self, cx):
+        from pyvc.lists import term_list
+        s = SObj("DistanceAwareConstraintFitness", {}, fresh=False, label="self")
+        n = cx.int("n_values", lo=0)
+        s.fields["values"] = term_list(cx, "values", n, "float", fresh=False)
+        s.fields["solved"] = cx.int("solved")
+        s.fields["total"] = cx.int("total")
+        s.fields["success"] = cx.bool("success")
+        s.fields["failing_trees"] = cx.opaque_list(cx.int("nft", lo=0))
+        s.fields["suggestion"] = cx.opaque("Suggestion")
+        return {"self": s}
+
+    def ensures(self, cx, a, r):
+        s = a["self"]
+        if not isinstance(r, SObj):
+            return [("returns_object", z3.BoolVal(False))]
+        nv = r.fields["values"]
+        from pyvc.ops import list_len
+        from pyvc.dsl import to_term_int
+        return [
+            ("fresh_object", z3.BoolVal(r is not s and r.fresh)),
+            ("same_success", T(r.fields["success"]) == T(s.fields["success"])),
+            ("same_number_of_values", to_term_int(list_len(nv)) == to_term_int(list_len(s.fields["values"]))),
+            ("values_not_shared", z3.BoolVal(nv is not s.fields["values"])),
+        ]
